@@ -181,6 +181,8 @@ def run(ctx, rep):
     c06_shared.recover(rep, lib)
     eof_distinct(rep, lib)
     raw_io(rep, lib)
+    from rules import pipeline_rules as _P
+    _P.sink_immediate(rep, lib, rid="C16-SINK-IMMEDIATE")
     rf = rep.rule("C20-FLUSH", "Master::go flushes the output writer, propagating the error, before every successful "
                   "return that follows start()", floor=1, analysis="A2 must-pass-through + A4 receiver provenance")
     c06_shared.flush_rule(rf, lib)
